@@ -380,3 +380,80 @@ pub fn gen_tree_seq(rng: &mut Rng, cfg: &TreeGenCfg) -> (Seq, String) {
         profile.to_string(),
     )
 }
+
+
+/// Large inputs next to the numeric boundaries small sequences cannot reach: more than 65 536 elements,
+/// more than 65 536 occurrences of one symbol, more than 8192 occurrences of a 2-bit digit in a level,
+/// alphabets of 255/256/257 and 65 535/65 536/65 537 symbols, long sorted runs.
+pub fn gen_big_tree_seq(rng: &mut Rng, cfg: &TreeGenCfg) -> (Seq, String) {
+    let n = *rng.pick(&[65535usize, 65536, 65537, 70001, 100000, 131071, 131072, 131073, 140000, 200000, 262143, 262144, 262145])
+        + rng.usize_below(2) * 2053;
+    let ty_cap = cfg.ty.max().min(if cfg.table_indexed { 1 << 17 } else { u128::MAX }) as u128;
+    let d_max = (ty_cap.min(1 << 20) as usize).saturating_add(1).min(n);
+    // code tables with more than 65 536 entries need a wide element type: give that shape real weight there
+    let wide_table = cfg.table_indexed && cfg.ty.bits() >= 32;
+    let pick = if wide_table && rng.below(100) < 35 { 5 } else { rng.below(8) };
+    let (counts, profile): (Vec<u64>, &str) = match pick {
+        0 => (vec![n as u64], "big_single"),
+        1 => {
+            let a = (n as u64) / 2 + rng.below(3);
+            (vec![a, n as u64 - a], "big_two_even")
+        }
+        2 => {
+            let rare = 1 + rng.below(200);
+            (vec![n as u64 - rare, rare], "big_two_skewed")
+        }
+        3 => {
+            // one symbol beyond 65536 occurrences, the rest singletons or small
+            let d = rng.urange(2, 300).min(d_max);
+            let mut v: Vec<u64> = (1..d).map(|_| 1 + rng.below(40)).collect();
+            let s: u64 = v.iter().sum();
+            v.push((n as u64).saturating_sub(s).max(1));
+            (v, "big_heavy")
+        }
+        4 => {
+            let d = (*rng.pick(&[3usize, 4, 5, 16, 17, 64, 255, 256, 257])).min(d_max);
+            (vec![(n / d).max(1) as u64; d], "big_uniform")
+        }
+        5 => {
+            // very many distinct symbols
+            let d = (*rng.pick(&[4096usize, 65535, 65536, 65537, 100000, 131072])).min(d_max).min(n);
+            (vec![(n / d).max(1) as u64; d], "big_many_symbols")
+        }
+        6 => {
+            let d = rng.urange(20, 2000).min(d_max);
+            ((0..d).map(|k| ((n as u64) / (k as u64 + 1) / 8).max(1)).collect(), "big_zipf")
+        }
+        _ => {
+            let levels = if cfg.degree == 4 { rng.urange(9, 11) } else { rng.urange(17, 21) };
+            let mut v = deep_counts(cfg.degree, levels);
+            v.truncate(d_max.max(1));
+            (v, "big_deep")
+        }
+    };
+    let d = counts.len();
+    let mut vals: Vec<u128> = match rng.below(3) {
+        0 => (0..d as u128).collect(),
+        1 => (0..d as u128).map(|k| ty_cap - k.min(ty_cap)).collect(),
+        _ => {
+            let step = (ty_cap / d as u128).max(1);
+            (0..d as u128).map(|k| (k * step).min(ty_cap)).collect()
+        }
+    };
+    vals.sort();
+    vals.dedup();
+    let counts = counts[..vals.len()].to_vec();
+    if rng.bool() {
+        vals.reverse();
+    }
+    let arrange = *rng.pick(&[Arrange::Shuffled, Arrange::SortedRuns, Arrange::RandomRuns, Arrange::Periodic]);
+    (
+        Seq::Weights {
+            syms: vals.into_iter().map(Sym).collect(),
+            counts,
+            arrange,
+            seed: rng.next_u64(),
+        },
+        profile.to_string(),
+    )
+}
